@@ -18,9 +18,15 @@ CLAIMS = {
   "note": "Structures enumerated (widths <= W); spec/sem.py trusted; slot update/read/write used through their contracts; the settle step after set() is C08's.",
   "technique": "contract-based deductive verification: function contracts on the real evaluator, VCs by exhaustive symbolic execution, z3",
  },
+ "C10": {
+  "text": "Function contracts on the real helpers run unmodified on symbolic integers. Unbounded (every integer, every width; z3 Int with pow2/bit_length lemmas instantiated at the occurring terms): ceil_log2 and bits_for return the least sufficient width, Shape.__init__ rejects exactly the illegal widths, Shape.cast of a range (start/stop unbounded, steps enumerated) gives the narrowest shape containing both end elements, signed iff one is negative, width 0 for empty and {0}; Shape._cast_plain_enum folds members as the narrowest common shape of their constant shapes (1..3 members = base and inductive step); Const(v) picks the narrowest shape. Bounded-width exact bit-vector tier (labelled bounded): exact_log2, Const normalisation is the unique in-range value congruent mod 2^w, Const.cast of Cat/Slice equals evaluation, _get_init_value wraps like Const and rejects out-of-range initial values of range-shaped signals with SyntaxError, MemoryData.Init rows go through the same function.",
+  "design_ref": "DESIGN.md 3A, 4/C10",
+  "note": "Tier U trusts the pow2/bit_length lemma schema and the shift/mask idiom lowering (spurious counter-models are filtered by replay on the real functions); module-global shims for int/isinstance/range/len/operator.index; normalisation obligations are bounded to widths <= 8 (quick) / 12 (thorough).",
+  "technique": "contract-based deductive verification: function contracts, VCs from symbolic execution of the real functions, z3 (Int with instantiated lemmas / bit-vectors)",
+ },
 }
 NOT_APPLICABLE = {
  "C14": "reflective generators, attribute proxies and a 120-line lock-step loop over heterogeneous objects (flatten, is_compliant, connect) are outside the subset a VC generator built here models soundly; the reachable flip algebra is too small to carry the property (DESIGN.md 4/C14)",
 }
-for _p in ["C03","C04","C06","C07","C08","C09","C10","C11","C12","C13","C15","C16","C17","C18","C19","C20"]:
+for _p in ["C03","C04","C06","C07","C08","C09","C11","C12","C13","C15","C16","C17","C18","C19","C20"]:
     NOT_APPLICABLE.setdefault(_p, "check not built yet in this session (work in progress; see DESIGN.md section 4 for the plan)")
